@@ -39,4 +39,4 @@ class Cache:
 def trim_cache(cache): # pragma: no cover
     if cache.__len__() > 500: 
         iter = cache.__iter__()
-        for i in 100: del cache[iter.__next__()]
+        for key in [iter.__next__() for i in range(100)]: del cache[key]
